@@ -142,7 +142,12 @@ def inflate(b):
 
 def eq_ds(a, b):
     try:
-        return strip(a) == strip(b)
+        a, b = strip(a), strip(b)
+        for d in (a, b):
+            # the VR of Pixel Data is not on the wire in implicit VR; OB and OW carry the same bytes
+            if (0x7FE0, 0x0010) in d and d[0x7FE00010].VR in ("OB", "OW", "OB or OW"):
+                d[0x7FE00010].VR = "OW"
+        return a == b
     except Exception:  # noqa: BLE001
         return False
 
@@ -246,7 +251,9 @@ class Pair:
         self.op, self.views = c["op"], []
         self.orig = ds = build_dataset(c["shape"], k)
         self.want = reference(ds, self.ts)
-        t = UID(self.ts)
+        # the data set's own transfer syntax: the context's, or another uncompressed little endian one
+        other = {TS["implicit"]: TS["explicit"], TS["explicit"]: TS["deflated"], TS["deflated"]: TS["explicit"]}
+        t = UID(other[self.ts]) if c.get("dsts") == "other" else UID(self.ts)
         ds.file_meta.TransferSyntaxUID = t
         ds.file_meta.MediaStorageSOPClassUID = CT
         ds.file_meta.MediaStorageSOPInstanceUID = ds.SOPInstanceUID
@@ -304,12 +311,13 @@ def run(ctx: Ctx) -> int:
         p = _P(r.out)
         p.i = m.start()
         v = p.value()[1]
-        cases.append({k: v[k] for k in ("op", "ts", "max", "sendChunked", "recvChunked", "shape")})
+        cases.append({k: v[k] for k in ("op", "ts", "max", "sendChunked", "recvChunked", "shape", "dsts")})
     if len(cases) < 500:
         raise MachineryError(f"only {len(cases)} configurations exported")
     rng = random.Random(ctx.seed + 25)
     if not thorough:
         must = [c for c in cases if (c["sendChunked"] or c["recvChunked"]) and c["shape"] in ("big20k", "vrmix") and c["max"] in (128, 16382)]
+        must += [c for c in cases if c["dsts"] == "other" and c["max"] == 16382 and c not in must]          # stored in another syntax than the context's
         cases = must + rng.sample([c for c in cases if c not in must], 220)
     elif len(cases) > 6000:
         cases = rng.sample(cases, 6000)
@@ -341,7 +349,8 @@ def run(ctx: Ctx) -> int:
         shutil.rmtree(tmpdir, ignore_errors=True)
     for k, o in enumerate(obs):
         o["id"] = k + 1
-    verdicts = validate_traces(ctx, "Trace_Store", [{"id": o["id"], "views": [{"name": v["name"], "equal": v["equal"]} for v in o["views"]]} for o in obs], timeout=1800)
+    verdicts = validate_traces(ctx, "Trace_Store", [{"id": o["id"], "may_refuse": o["c"].get("dsts") == "other" and bool(o["c"]["sendChunked"]), "refused": o["exc"].startswith("ValueError"),
+                                                    "views": [{"name": v["name"], "equal": v["equal"]} for v in o["views"]]} for o in obs], timeout=1800)
     for o in obs:
         v = verdicts[o["id"]][0]
         c = o["c"]
@@ -354,5 +363,5 @@ def run(ctx: Ctx) -> int:
     ctx.sample(obs[-1])
     ctx.assume("'equal to the original' = equal to what pydicom itself returns for the original encoded in the context's transfer syntax (pydicom's codec is not under test)",
                "dataset shapes come from a fixed catalogue (VR mix, nested sequences, private block, empty values, odd lengths, 20 kB / 1 MiB pixel data, long and multi-valued strings)")
-    return ctx.finish(rule="configuration vectors of StorePipeline.tla (operation x transfer syntax x maximum PDU x chunked send x chunked receive x shape), sampled in quick with every "
+    return ctx.finish(rule="configuration vectors of StorePipeline.tla (operation x transfer syntax x maximum PDU x chunked send x chunked receive x shape x data set stored in the context's / another convertible syntax), sampled in quick with every "
                       "chunked-mode configuration on large/VR-mix datasets kept; non-trivial = anything but a small implicit-VR in-memory dataset")
